@@ -7,6 +7,7 @@ import (
 	"log/slog"
 	"net/http"
 	"net/url"
+	"reservoir/utils/verifhook"
 	"strings"
 	"sync/atomic"
 )
@@ -39,6 +40,7 @@ type consumedBody struct {
 }
 
 func (b *consumedBody) Read(p []byte) (int, error) {
+	verifhook.At("upstream.body.read", b)
 	if b.done.Load() {
 		return 0, io.EOF
 	}
